@@ -112,6 +112,7 @@ impl<Key, Value> CommandExecutor<Key, Value>
         thread::spawn(move || {
             #[cfg(cached_verif)] let _verif_guard = crate::cache::verif::adopt(verif_sink, "worker");
             #[cfg(cached_verif)] crate::cache::verif::point("W_Recv", 0);
+            #[cfg(cached_verif)] crate::cache::verif::queue_op(2, 1);
             while let Ok(pair) = receiver.recv() {
                 #[cfg(cached_verif)] crate::cache::verif::event("recv", &[&[pair.acknowledgement.handle().verif_id()][..], &pair.command.verif_fields()[..]].concat());
                 let command = pair.command;
@@ -153,9 +154,11 @@ impl<Key, Value> CommandExecutor<Key, Value>
                         info!("Received Shutdown command");
                         pair.acknowledgement.done(CommandStatus::Accepted);
                         #[cfg(cached_verif)] crate::cache::verif::point("W_Drain", 0);
+                        #[cfg(cached_verif)] crate::cache::verif::queue_op(2, 1);
                         for command_acknowledgement_pair in receiver.iter() {
                             command_acknowledgement_pair.acknowledgement.done(CommandStatus::ShuttingDown);
                             #[cfg(cached_verif)] crate::cache::verif::point("W_Drain", 0);
+                            #[cfg(cached_verif)] crate::cache::verif::queue_op(2, 1);
                         }
                         drop(receiver);
                         break;
@@ -163,6 +166,7 @@ impl<Key, Value> CommandExecutor<Key, Value>
                 };
                 pair.acknowledgement.done(status);
                 #[cfg(cached_verif)] crate::cache::verif::point("W_Recv", 0);
+                #[cfg(cached_verif)] crate::cache::verif::queue_op(2, 1);
             }
         });
     }
@@ -175,6 +179,7 @@ impl<Key, Value> CommandExecutor<Key, Value>
         let acknowledgement = CommandAcknowledgement::new();
         #[cfg(cached_verif)] let verif_fields = [&[acknowledgement.handle().verif_id()][..], &command.verif_fields()[..]].concat();
         #[cfg(cached_verif)] crate::cache::verif::point("C_Send", verif_fields[2]);
+        #[cfg(cached_verif)] crate::cache::verif::queue_op(1, 1);
         let send_result = self.sender.send(CommandAcknowledgementPair {
             command,
             acknowledgement: acknowledgement.clone(),
